@@ -5,6 +5,8 @@ use crate::Env;
 
 pub mod c01;
 pub mod c02;
+pub mod c04;
+pub mod c05;
 pub mod c07;
 pub mod c08;
 pub mod c15;
@@ -17,6 +19,8 @@ pub fn cases(prop: &str, tier: Tier) -> u64 {
     match prop {
         "C01" => c01::cases(tier),
         "C02" => c02::cases(tier),
+        "C04" => c04::cases(tier),
+        "C05" => c05::cases(tier),
         "C07" => c07::cases(tier),
         "C08" => c08::cases(tier),
         "C15" => c15::cases(tier),
@@ -31,6 +35,8 @@ pub fn run_case(prop: &str, env: &Env, ctx: &mut Ctx, idx: u64) {
     match prop {
         "C01" => c01::run_case(env, ctx, idx),
         "C02" => c02::run_case(env, ctx, idx),
+        "C04" => c04::run_case(env, ctx, idx),
+        "C05" => c05::run_case(env, ctx, idx),
         "C07" => c07::run_case(env, ctx, idx),
         "C08" => c08::run_case(env, ctx, idx),
         "C15" => c15::run_case(env, ctx, idx),
